@@ -190,8 +190,7 @@ func (w *World) storeOptions() (moss.StoreOptions, moss.StorePersistOptions) {
 func NewWorld(cfg Config, alpha []*BatchSpec) *World {
 	w := &World{cfg: cfg, alpha: alpha, ll: map[string]string{}, mains: map[int]bool{}, probes: probeKeys}
 	w.models = []*Node{NewNode()}
-	w.s = vs.New()
-	w.s.SleepBudget = cfg.SleepBudget
+	w.s = newSched(cfg)
 	if cfg.Backing == "store" {
 		d, err := os.MkdirTemp(tmpRoot(), "mossw-")
 		if err != nil {
@@ -202,6 +201,12 @@ func NewWorld(cfg Config, alpha []*BatchSpec) *World {
 	}
 	w.open()
 	return w
+}
+
+func newSched(cfg Config) *vs.Sched {
+	s := vs.New()
+	s.SleepBudget = cfg.SleepBudget
+	return s
 }
 
 // gate is wrapped around LowerLevelUpdate: the persister parks in it until a Pe/Pf step.
